@@ -43,13 +43,13 @@ type Rec struct {
 
 // Deviation kinds for SSH devices.
 const (
-	DevError   = "error"    // device answers with its error text
-	DevGarbage = "garbage"  // unexpected output / garbled echo
-	DevStall   = "stall"    // no answer (time-out)
-	DevClose   = "close"    // connection closed
-	DevNoOK    = "no-ok"    // write memory without [OK]
-	DevExit1   = "exit1"    // Linux: silent non-zero exit status
-	DevBanner  = "banner"   // IOS reload banner (see BannerSpec)
+	DevError   = "error"      // device answers with its error text
+	DevGarbage = "garbage"    // unexpected output / garbled echo
+	DevStall   = "stall"      // no answer (time-out)
+	DevClose   = "close"      // connection closed
+	DevNoOK    = "no-ok"      // write memory without [OK]
+	DevExit1   = "exit1"      // Linux: silent non-zero exit status
+	DevBanner  = "banner"     // IOS reload banner (see BannerSpec)
 	DevWarnErr = "warn+error" // ASA: the benign warning this command class can produce, followed by the error text
 	DevInfoErr = "info+error" // ASA: an INFO: line followed by the error text
 	DevBadConf = "bad-config" // the configuration the device prints holds a (legal) construct the tool's parser rejects
@@ -63,34 +63,35 @@ type BannerSpec struct {
 }
 
 type SSH struct {
-	Flavor    string // asa ios linux
-	Hostname  string
-	Banner    string // login banner / content of /etc/issue
-	Pass      string
-	Cisco     *ciscomodel.Dev
-	Linux     *linuxmodel.Dev
-	Dev       map[int]string     // point -> deviation kind
-	Banners   map[int]BannerSpec // point -> banner (IOS)
-	HostKeyQ  bool               // ask the ssh host-key question first
-	NeedEnable bool              // login ends in user mode, enable needs a password
+	Flavor        string // asa ios linux
+	Hostname      string
+	Banner        string // login banner / content of /etc/issue
+	Pass          string
+	Cisco         *ciscomodel.Dev
+	Linux         *linuxmodel.Dev
+	Dev           map[int]string        // point -> deviation kind
+	Banners       map[int]BannerSpec    // point -> banner (IOS)
+	BannersByText map[string]BannerSpec // command text -> banner at its first occurrence (IOS)
+	HostKeyQ      bool                  // ask the ssh host-key question first
+	NeedEnable    bool                  // login ends in user mode, enable needs a password
 
-	Trans []Rec
-	point int
-	batch int
-	out   []string
-	stall bool
-	closed bool
-	phase  string // login, enable-pass, cli, config, confirm-reload, save-q
-	mode   string // "", "config"
-	modified bool  // running config differs from startup (IOS reload question)
-	PrepNoop bool  // IOS: the session-preparation commands change nothing
-	ReloadPending bool
-	ReloadArmed   int  // how often a reload was scheduled
-	Saved         int  // successful write memory
-	Sessions      int
-	lastExit int // Linux: exit status of last command
+	Trans          []Rec
+	point          int
+	batch          int
+	out            []string
+	stall          bool
+	closed         bool
+	phase          string // login, enable-pass, cli, config, confirm-reload, save-q
+	mode           string // "", "config"
+	modified       bool   // running config differs from startup (IOS reload question)
+	PrepNoop       bool   // IOS: the session-preparation commands change nothing
+	ReloadPending  bool
+	ReloadArmed    int // how often a reload was scheduled
+	Saved          int // successful write memory
+	Sessions       int
+	lastExit       int // Linux: exit status of last command
 	pendingConfirm string
-	loggedIn bool
+	loggedIn       bool
 	afterWriteTerm bool
 	// OnRestore is called when the Linux simulator "executes" the new
 	// packet filter file.
@@ -486,6 +487,14 @@ func (s *SSH) bannerText(kind string) string {
 
 func (s *SSH) iosAnswer(l, output string) {
 	spec, has := s.Banners[s.point]
+	if !has {
+		// a banner tied to a command text (first occurrence): independent
+		// of how many dialogue lines earlier banners caused
+		if sp, ok := s.BannersByText[l]; ok {
+			spec, has = sp, true
+			delete(s.BannersByText, l)
+		}
+	}
 	echo := l
 	if !has {
 		s.emit(echo + "\r\n" + crlf(output) + s.prompt())
@@ -782,4 +791,3 @@ func (s *SSH) linuxLine(l, class, dev string) {
 		s.answer(l, "bash: "+first+": command not found")
 	}
 }
-
